@@ -38,13 +38,16 @@ def patched(obj: Any, name: str, fn: Any):
 
 
 def scripted_engine(mats: List[torch.Tensor]):
-    it = iter(mats)
+    """An engine that hands out the scripted matrices.  Matrices are matched BY SHAPE (jump normals are (N, T-1), diffusion
+    normals (N, T)), so the order and the number of draws the generator makes is not imposed; a shape the script does not have
+    is a machinery error."""
+    pool = list(mats)
 
     def engine(*size: int, dtype=None, device=None) -> torch.Tensor:
-        m = next(it)
-        if tuple(m.shape) != tuple(size):
-            raise MachineryError(f"engine asked for {size}, script has {tuple(m.shape)}")
-        return m.clone().to(dtype)
+        for m in pool:
+            if tuple(m.shape) == tuple(size):
+                return m.clone().to(dtype)
+        raise MachineryError(f"engine asked for {size}, script has {[tuple(m.shape) for m in pool]}")
     return engine
 
 
@@ -119,7 +122,8 @@ def replay(ctx: Ctx, recs: List[Dict[str, Any]]) -> None:
             NJ = torch.tensor([[float(n) for n in r["ns"]] for r in rs], dtype=DT)
             Y = torch.tensor([[float(y) for y in r["ys"]] for r in rs], dtype=DT)
             import torch.distributions.poisson as tp
-            for sigma, mu, dt, lam, jm, js in ((2.0, 4.0, 0.25, 8.0, -0.25, 0.5), (1.0, 0.0, 1 / 16, 68.2, 0.0, 0.02)):
+            # (the third set: jumps of a FIXED size - jump_std = 0 with a non-zero mean)
+            for sigma, mu, dt, lam, jm, js in ((2.0, 4.0, 0.25, 8.0, -0.25, 0.5), (1.0, 0.0, 1 / 16, 68.2, 0.0, 0.02), (0.5, 0.25, 0.25, 4.0, -0.25, 0.0)):
                 with patched(tp.Poisson, "sample", lambda self, shape=torch.Size(): NJ.clone()):
                     got = generate_merton_jump(N, T, init_state=(1.25,), sigma=sigma, mu=mu, dt=dt, jump_per_year=lam, jump_mean=jm, jump_std=js,
                                                dtype=DT, engine=scripted_engine([Y, Z]))
